@@ -356,6 +356,7 @@ func RunCheck(chk *Check, tier string, seed int64) int {
 	levelStats := map[int][]LevelStat{}
 	recycles := 0
 	var violStates, violTrans int64
+	partialEvals, partialNT := map[int]int64{}, map[int]int64{} // per shard: executed so far, as of its last reported violation
 	finished := 0
 	restarts := 0
 	violations := 0
@@ -412,6 +413,9 @@ func RunCheck(chk *Check, tier string, seed int64) int {
 			report(ev.viol.Case, ev.viol.Res.Why, ev.viol.Res.Msg, 1, ev.viol.Res.Sig)
 			violStates += ev.viol.Res.States
 			violTrans += ev.viol.Res.Trans
+			if ev.viol.Evals > partialEvals[ev.shard] {
+				partialEvals[ev.shard], partialNT[ev.shard] = ev.viol.Evals, ev.viol.NT
+			}
 		case ev.sum != nil:
 			s := ev.sum
 			if s.Recycle {
@@ -562,6 +566,22 @@ func RunCheck(chk *Check, tier string, seed int64) int {
 		kh = append(kh, fmt.Sprintf("%s x%d", h, n))
 	}
 	sort.Strings(kh)
+	// a run that stopped at its first violations has no worker summaries: report what the workers had executed
+	// when they last reported (a lower bound)
+	var pe, pn int64
+	for sh, e := range partialEvals {
+		pe += e
+		pn += partialNT[sh]
+	}
+	if pe > total.Evals {
+		total.Evals = pe
+		if total.Distinct < pe {
+			total.Distinct = pe
+		}
+	}
+	if pn > total.NT {
+		total.NT = pn
+	}
 	cov := map[string]any{
 		"evaluations":                 total.Evals,
 		"distinct_nontrivial":         total.NT,
